@@ -15,7 +15,8 @@
 (* of the contract: any partition, any interleaving is accepted.           *)
 (*                                                                         *)
 (* int32 budget: element values |v| <= 10^4, fa,fb <= 9, n <= 10^4;        *)
-(* triangle corners |c| <= 300 cells * 5040 = 1.6*10^6.                    *)
+(* triangle corners |c| <= 300 cells * 5040 = 1.6*10^6; bit-exact corners  *)
+(* are three integers < 2^22 per coordinate.                               *)
 (***************************************************************************)
 EXTENDS Integers, Sequences, FiniteSets
 
@@ -59,9 +60,11 @@ SeqShape(n, ev) == Len(ev) = n /\ \A k \in DOMAIN ev : EvIndex(ev[k]) = k - 1
 OwnFromSeq(n, ev) == [k \in 1 .. n |-> EvValue(ev[k])]
 
 (* ---- triangle multisets (marching) ----------------------------------- *)
-\* a triangle is <<x1,y1,z1, x2,y2,z2, x3,y3,z3>>; rotation of the corners does not matter
-Rot(t) == <<t[4], t[5], t[6], t[7], t[8], t[9], t[1], t[2], t[3]>>
-LexLess(a, b) == \E k \in 1 .. 9 : a[k] < b[k] /\ \A j \in 1 .. (k - 1) : a[j] = b[j]
+\* a triangle is the concatenation of its three corners, <<x1,y1,z1, x2,y2,z2, x3,y3,z3>> on the
+\* lattice, or three integers per coordinate when the IEEE bit pattern is logged (27 entries);
+\* rotation of the corners does not matter, orientation does
+Rot(t) == LET n == Len(t) \div 3 IN SubSeq(t, n + 1, 3 * n) \o SubSeq(t, 1, n)
+LexLess(a, b) == \E k \in 1 .. Len(a) : a[k] < b[k] /\ \A j \in 1 .. (k - 1) : a[j] = b[j]
 Canon(t) ==
     LET r1 == Rot(t)
         r2 == Rot(r1)
@@ -70,16 +73,27 @@ Canon(t) ==
 
 CanonSeq(ts) == [k \in DOMAIN ts |-> Canon(ts[k])]
 Mult(cs, t) == Cardinality({k \in DOMAIN cs : cs[k] = t})
-SameBag(a, b) ==
+\* a list in the canonical form of its multiset: every triangle is its own canonical rotation
+\* and the list is sorted.  Two lists in this form denote the same multiset iff they are equal,
+\* which TLC decides in linear time (a full block face gives 10^4 .. 10^5 triangles).
+SortedCanon(ts) ==
+    /\ \A k \in DOMAIN ts : Canon(ts[k]) = ts[k]
+    /\ \A k \in 1 .. (Len(ts) - 1) : ~LexLess(ts[k + 1], ts[k])
+SameBagGeneral(a, b) ==
     LET ca == CanonSeq(a)
         cb == CanonSeq(b)
         sa == {ca[k] : k \in DOMAIN ca}
         sb == {cb[k] : k \in DOMAIN cb}
     IN /\ Len(a) = Len(b)
        /\ sa = sb
-       /\ \A t \in sa : Mult(ca, t) = Mult(cb, t)
+       /\ (Cardinality(sa) = Len(a) \/ \A t \in sa : Mult(ca, t) = Mult(cb, t))
+SameBag(a, b) == IF SortedCanon(a) /\ SortedCanon(b) THEN a = b ELSE SameBagGeneral(a, b)
 
 (* ---- sample multisets (field accumulation) --------------------------- *)
-\* a sample list is a sequence of <<attr, x, y, z, count>> in a canonical order
-EachOnce(s) == \A k \in DOMAIN s : s[k][5] = 1
+\* a sample multiset is a sequence of boxes <<attr, x0, x1, y0, y1, z0, z1, count>> (inclusive
+\* bounds, every lattice point of the box evaluated `count` times) in a canonical order
+EachOnce(s) == \A k \in DOMAIN s : s[k][Len(s[k])] = 1
+\* the box the contract asks for: AddField evaluates attribute a once at every lattice point of
+\* the domain lo..hi (cells) grown by one cell at the low end (floor - 1 .. ceil + 1 exclusive)
+DomainBox(a, lo, hi) == <<a, lo[1] - 1, hi[1], lo[2] - 1, hi[2], lo[3] - 1, hi[3], 1>>
 =============================================================================
